@@ -16,9 +16,10 @@ echo "--- (a) suite with change:"
 cargo test --workspace --no-fail-fast --offline 2>&1 | grep -E "^test result|^error" | tr '\n' ' '; echo
 mkdir -p $(dirname $place); cp $S/demo.rs $place
 echo "--- (b) demo with change: [$runcmd]"
-bash -c "$runcmd" > /tmp/demo_with.log 2>&1; echo "exit=$?"; grep -E "^test result|panicked|FAILED" /tmp/demo_with.log | head -4
+bash -c "$runcmd" > /tmp/demo_with.$$.log 2>&1; echo "exit=$?"; grep -E "^test result|panicked|FAILED" /tmp/demo_with.$$.log | head -4
 git checkout -q -- .
 echo "--- (c) demo without change:"
-bash -c "$runcmd" > /tmp/demo_without.log 2>&1; echo "exit=$?"; grep -E "^test result" /tmp/demo_without.log | head -3
+bash -c "$runcmd" > /tmp/demo_without.$$.log 2>&1; echo "exit=$?"; grep -E "^test result" /tmp/demo_without.$$.log | head -3
 rm -f $place
 git status --short | grep -v _seed
+rm -f /tmp/demo_with.$$.log /tmp/demo_without.$$.log
